@@ -143,36 +143,42 @@ JCases == IF Mode = "judge" THEN ndJsonDeserialize(IOEnv.CASES) ELSE <<>>
 JObs   == IF Mode = "judge" THEN ndJsonDeserialize(IOEnv.OBS) ELSE <<>>
 
 ItemShape(it) == it.k \o (IF it.a.dec \/ it.b.dec THEN ".d" ELSE ".i")
-\* what kind of case this is: item kinds with their spelling class, form of the argument, the items that contain it,
-\* and the expected answer - the stable identity of a deviation (one per kind, with an exact input as witness)
+\* What kind of case this is - the stable identity of a deviation (one per kind, reported with exact inputs as
+\* witnesses): the kinds (with spelling class) of the items that contain the argument if it is acceptable, of the
+\* items with a bound at most 1 away if it is not; whether a decimal point occurs anywhere in the expression; the
+\* form of the argument; the expected answer.
+KindSet(S) == LET q == SetToSeq(S) IN
+  IF Len(q) = 0 THEN "none" ELSE IF Len(q) = 1 THEN q[1] ELSE IF Len(q) = 2 THEN q[1] \o "+" \o q[2]
+  ELSE IF Len(q) = 3 THEN q[1] \o "+" \o q[2] \o "+" \o q[3] ELSE "many"
+Near(x, it) == Abs(x - it.a.v) <= 10 \/ Abs(x - it.b.v) <= 10
 Shape(e, arg) ==
-  FoldLeft(LAMBDA acc, i : acc \o (IF i = 1 THEN "" ELSE ",") \o ItemShape(e[i]) \o (IF InItem(arg.v, e[i]) THEN "*" ELSE ""),
-           "", [i \in DOMAIN e |-> i])
-  \o "|" \o arg.form \o "|" \o (IF In(arg.v, e) THEN "in" ELSE "out")
+  (IF In(arg.v, e)
+   THEN "in:" \o KindSet({ItemShape(e[i]) : i \in {j \in DOMAIN e : InItem(arg.v, e[j])}})
+   ELSE "notin:" \o KindSet({ItemShape(e[i]) : i \in {j \in DOMAIN e : Near(arg.v, e[j])}}))
+  \o "|expr:" \o (IF \E i \in DOMAIN e : e[i].a.dec \/ e[i].b.dec THEN "dec" ELSE "int") \o "|arg:" \o arg.form
 
-BadOf(n) == LET c == JCases[n]
-                o == JObs[n]
-            IN {j \in DOMAIN c.args : ~Open(c.args[j], c.items) /\ ((o.got[j] = 1) # In(c.args[j].v, c.items))}
-OpenOf(n) == {j \in DOMAIN JCases[n].args : Open(JCases[n].args[j], JCases[n].items)}
+\* all (case, argument) pairs; sets and Cardinality instead of recursive folds (thousands of cases)
+JPairs == UNION {{<<n, j>> : j \in DOMAIN JCases[n].args} : n \in DOMAIN JCases}
+JArg(p) == JCases[p[1]].args[p[2]]
+JItems(p) == JCases[p[1]].items
+OpenPairs == {p \in JPairs : Open(JArg(p), JItems(p))}
+BadPairs == {p \in JPairs \ OpenPairs : (JObs[p[1]].got[p[2]] = 1) # In(JArg(p).v, JItems(p))}
 \* arguments at a bound of the expression or one tenth beside it: the cases that separate <= from <, : from ,
-BoundaryOf(n) == {j \in DOMAIN JCases[n].args : \E b \in BoundsOf(JCases[n].items) : Abs(JCases[n].args[j].v - b) <= 1}
-BadRec(n, j) == LET c == JCases[n] IN
-  [id |-> c.id, valid |-> c.valid, arg |-> c.args[j].text, form |-> c.args[j].form, pos |-> c.pos,
-   expected |-> IF In(c.args[j].v, c.items) THEN "accepted" ELSE "invalidFunctionArg",
-   observed |-> IF JObs[n].got[j] = 1 THEN "accepted" ELSE "invalidFunctionArg",
-   shape |-> Shape(c.items, c.args[j])]
-BadSeq == FlattenSeq([n \in DOMAIN JCases |-> LET b == SetToSeq(BadOf(n)) IN [m \in DOMAIN b |-> BadRec(n, b[m])]])
-Sum(s) == FoldLeft(LAMBDA a, b : a + b, 0, s)
+BoundaryPairs == {p \in JPairs : \E b \in BoundsOf(JItems(p)) : Abs(JArg(p).v - b) <= 1}
+BadRec(p) == LET c == JCases[p[1]] IN
+  [id |-> c.id, valid |-> c.valid, arg |-> JArg(p).text, form |-> JArg(p).form, pos |-> c.pos,
+   expected |-> IF In(JArg(p).v, c.items) THEN "accepted" ELSE "invalidFunctionArg",
+   observed |-> IF JObs[p[1]].got[p[2]] = 1 THEN "accepted" ELSE IF JObs[p[1]].got[p[2]] = 0 THEN "invalidFunctionArg" ELSE "no answer",
+   shape |-> Shape(c.items, JArg(p))]
+BadSeq == LET b == SetToSeq(BadPairs) IN [m \in DOMAIN b |-> BadRec(b[m])]
 
 ASSUME Mode = "judge" =>
   /\ Len(JCases) = Len(JObs)
   /\ \A n \in DOMAIN JCases : JCases[n].id = JObs[n].id /\ Len(JCases[n].args) = Len(JObs[n].got)
   /\ ndJsonSerialize(IOEnv.OUT, BadSeq)
-  /\ PrintT(<<"JUDGED", Sum([n \in DOMAIN JCases |-> Len(JCases[n].args)]),
-              "OPEN", Sum([n \in DOMAIN JCases |-> Cardinality(OpenOf(n))]),
-              "INVALID", Sum([n \in DOMAIN JCases |-> Cardinality({j \in DOMAIN JCases[n].args : ~In(JCases[n].args[j].v, JCases[n].items)})]),
-              "BOUNDARY", Sum([n \in DOMAIN JCases |-> Cardinality(BoundaryOf(n))]),
-              "BAD", Len(BadSeq)>>)
+  /\ PrintT(<<"JUDGED", Cardinality(JPairs), "OPEN", Cardinality(OpenPairs),
+              "INVALID", Cardinality({p \in JPairs : ~In(JArg(p).v, JItems(p))}),
+              "BOUNDARY", Cardinality(BoundaryPairs), "BAD", Len(BadSeq)>>)
 
 (***************************************************************************)
 (* not-null / not-bool.  An argument kind is a piece of source text with    *)
@@ -209,7 +215,9 @@ ArgKinds == <<
 FlagSets == {{}, {"not-null"}, {"not-bool"}, {"not-null", "not-bool"}}
 FlagCases == {fc \in [flags : FlagSets, kind : DOMAIN ArgKinds, pos : {1, 2}, lang : {"c", "cpp"}, param : {"ptr", "int"}] :
                   /\ ArgKinds[fc.kind].lang \in {"both", fc.lang}
-                  /\ IF fc.param = "ptr" THEN ArgKinds[fc.kind].ptr ELSE ArgKinds[fc.kind].int}
+                  /\ IF fc.param = "ptr" THEN ArgKinds[fc.kind].ptr ELSE ArgKinds[fc.kind].int
+                  \* <not-null/> is documented for pointer arguments only
+                  /\ "not-null" \in fc.flags => fc.param = "ptr"}
 
 \* the findings (among the two ids of interest) the documentation requires at the call
 ExpectedFlags(fc) == {id \in {"nullPointer", "invalidFunctionArgBool"} :
